@@ -30,16 +30,14 @@ Definition smap (f : string → string) (s : gset string) : gset string := set_m
 Definition nets_of (l : connmap) : gset string := list_to_set (mjoin (snd <$> l)).
 Definition free_bufb (c : circuit) (n : string) : bool :=
   match c !! n with Some i => (bool_decide (n_ty i = Buf) || bool_decide (n_ty i = BbIn)) && bool_decide (n_fi i = ∅) | None => false end.
-(* every node of P outside `skip` still satisfies its own (old) defining equation under v *)
-Definition keeps (P : circuit) (skip : gset string) (v : val) : bool :=
-  forallb (λ p, bool_decide (p.1 ∈ skip) || node_okb v p.1 p.2) (map_to_list P).
 (* type and output mark of every node of P are the same in R (possibly under a renaming) *)
 Definition same_attrs (f : string → string) (P R : circuit) (except : gset string) : bool :=
   forallb (λ p, bool_decide (p.1 ∈ except) ||
                 match R !! f p.1 with Some j => bool_decide (n_ty j = n_ty p.2) && eqb (n_out j) (n_out p.2) | None => false end)
           (map_to_list P).
-Definition eqs (v : val) (l : list (string * string)) : bool := forallb (λ p, eqb (v p.1) (v p.2)) l.
-Definition sem (R : circuit) (chk : val → bool) : bool := if acyclicb R then sweep R chk else true.
+(* exhaustive sweep over the valuations of R's free nodes (cyclic results are judged structurally only) *)
+Definition sem (R : circuit) (mk : index → side) : bool := if acyclicb R then sweepc R mk else true.
+Definition ixpairs (ix : index) (l : list (string * string)) := (λ p, (ix p.1, ix p.2)) <$> l.
 
 (* --- add_subcircuit --- *)
 Definition sub_clash (P SC : Circuit) (name : string) : bool :=
@@ -67,11 +65,12 @@ Definition holds_sub (P SC : Circuit) (name : string) (conns : connmap) (strip :
     (* exactly the attached child inputs and the driven parent nets stop being free *)
     bool_decide (free_nodes gR = (free_nodes gP ∖ targets) ∪
                    smap (pre name) (free_nodes S' ∖ list_to_set (fst <$> filter (λ kv, kv.2 ≠ []) cin)) ∖ targets) &&
-    sem gR (λ v,
-      keeps gP targets v &&                                   (* pre-existing nodes keep their function *)
-      consistentb S' (v ∘ pre name) &&                         (* name_n has the value n has in sc ... *)
-      eqs v (kv ← cin; net ← kv.2; [(pre name kv.1, net)]) && (* ... when sc's inputs take the values of the attached nets *)
-      eqs v (kv ← cout; net ← kv.2; if free_bufb gP net then [(net, pre name kv.1)] else []))
+    sem gR (λ ix, {|
+      s_progs := [compile ix id gP targets;              (* pre-existing nodes keep their function *)
+                  compile ix (pre name) S' ∅];            (* name_n has the value n has in sc ... *)
+      s_eqs := ixpairs ix ((kv ← cin; net ← kv.2; [(pre name kv.1, net)]) ++   (* ... when sc's inputs take the values of the attached nets *)
+                           (kv ← cout; net ← kv.2; if free_bufb gP net then [(net, pre name kv.1)] else []));
+      s_pred := no_pred |})
   end.
 
 (* --- add_blackbox --- *)
@@ -94,10 +93,11 @@ Definition holds_bb (P : Circuit) (d : bbdef) (inst : string) (conns : connmap) 
     forallb (λ p, bool_decide (ty gR (pin inst p) = Some BbOut)) (elements (bb_out d)) &&
     bool_decide (free_nodes gR = (free_nodes gP ∖ targets) ∪
                    smap (pin inst) ((bb_in d ∖ list_to_set (fst <$> filter (λ kv, kv.2 ≠ []) cin)) ∪ bb_out d)) &&
-    sem gR (λ v,
-      keeps gP targets v &&
-      eqs v (kv ← cin; net ← kv.2; [(pin inst kv.1, net)]) &&
-      eqs v (kv ← cout; net ← kv.2; if free_bufb gP net then [(net, pin inst kv.1)] else []))
+    sem gR (λ ix, {|
+      s_progs := [compile ix id gP targets];
+      s_eqs := ixpairs ix ((kv ← cin; net ← kv.2; [(pin inst kv.1, net)]) ++
+                           (kv ← cout; net ← kv.2; if free_bufb gP net then [(net, pin inst kv.1)] else []));
+      s_pred := no_pred |})
   end.
 
 (* --- fill_blackbox --- *)
@@ -124,9 +124,10 @@ Definition holds_fill (P : Circuit) (inst : string) (SC R : Circuit) (oc : outco
     same_attrs id gP gR pins && same_attrs (pre inst) (strip_io gS) gR ∅ &&
     bool_decide (free_nodes gR = (free_nodes gP ∖ pins) ∪
                    smap (pre inst) (filter (λ p, p ∉ bb_in d ∨ pin inst p ∈ free_nodes gP) (free_nodes (strip_io gS)))) &&
-    sem gR (λ v,
-      consistentb gP (v ∘ ρ) &&                  (* the parent with pins read at inst_p: all its equations still hold *)
-      consistentb (strip_io gS) (v ∘ pre inst))  (* the spliced copy computes sc on the pin values *)
+    sem gR (λ ix, {|
+      s_progs := [compile ix ρ gP ∅;                          (* the parent with pins read at inst_p: all its equations still hold *)
+                  compile ix (pre inst) (strip_io gS) ∅];      (* the spliced copy computes sc on the pin values *)
+      s_eqs := []; s_pred := no_pred |})
   end.
 
 (* --- strip_blackboxes --- *)
@@ -149,7 +150,7 @@ Definition holds_strip (C : Circuit) (ign : list string) (obs : res Circuit) : b
      bool_decide (outputs gR = smap ρ ((outputs g ∖ dropped) ∪ (kept ∩ of_type g (is_ty BbIn)))) &&  (* bb_input pins become outputs *)
      same_attrs ρ pruned gR (bb_pins g) &&
      bool_decide (free_nodes gR = smap ρ (free_nodes pruned)) &&
-     sem gR (λ v, consistentb pruned (v ∘ ρ)))
+     sem gR (λ ix, {| s_progs := [compile ix ρ pruned ∅]; s_eqs := []; s_pred := no_pred |}))
   | _ => false
   end.
 
